@@ -11,7 +11,7 @@
 #![allow(static_mut_refs, clippy::missing_safety_doc, dead_code, function_casts_as_integer)]
 use crate::rng::Rng;
 use std::cell::Cell;
-use std::sync::atomic::{AtomicBool, AtomicU32, Ordering::SeqCst};
+use std::sync::atomic::{AtomicBool, AtomicU32, AtomicUsize, Ordering::SeqCst};
 
 // ------------------------------------------------------------------ raw syscalls
 pub unsafe fn raw6(n: i64, a: i64, b: i64, c: i64, d: i64, e: i64, f: i64) -> i64 {
@@ -186,6 +186,7 @@ pub struct Stats {
     pub f_close_stdin: u64,
     pub f_fd_limit: u64,
     pub f_exec_child: u64,
+    pub f_fork_real: u64,
     pub inherited_fds: u64,
     pub inherited_by_kind: [u64; 8],
     pub p_send_blocked: u64,
@@ -1920,4 +1921,139 @@ pub unsafe extern "C" fn munmap(addr: *mut libc::c_void, len: usize) -> i32 {
         }
     }
     ret(r) as i32
+}
+
+// ------------------------------------------------------------------ a real fork()ed child
+// The one thing sim-processes (thread groups in one address space) cannot represent is a child
+// that starts with a *copy* of the library's statics and of the parent's mappings. `fork_real`
+// makes one: the calling sim thread really forks; the child leaves the simulation (every seam
+// passes through), runs `f` natively and exits with its result. The parent keeps the baton for the
+// whole time, so the only concurrency is between the parent's current thread and the child, and
+// that is controlled: with `hold_at_unlink` the child parks at its first `shm_unlink` (i.e. inside
+// its first shm_open-backed region creation, the named object still existing) until released.
+#[repr(C)]
+pub struct ForkPage {
+    pub parked: AtomicU32,
+    pub release: AtomicU32,
+    pub msg_len: AtomicU32,
+    pub msg: [u8; 400],
+}
+static FORK_HOLD: AtomicUsize = AtomicUsize::new(0);
+pub struct ForkChild {
+    pid: i32,
+    page: *mut ForkPage,
+    status: Cell<Option<i32>>,
+    done: bool,
+}
+impl Drop for ForkChild {
+    fn drop(&mut self) {
+        // the parent unwound past the child (a panic between fork and wait): let it go and reap it
+        if !self.done {
+            self.release();
+            if self.status.get().is_none() {
+                let mut st = 0i32;
+                unsafe { raw6(libc::SYS_wait4, self.pid as i64, &mut st as *mut i32 as i64, 0, 0, 0, 0) };
+            }
+        }
+    }
+}
+unsafe impl Send for ForkChild {}
+
+fn real_sleep_us(us: i64) {
+    let ts = libc::timespec { tv_sec: 0, tv_nsec: us * 1000 };
+    unsafe { raw6(libc::SYS_nanosleep, &ts as *const _ as i64, 0, 0, 0, 0, 0) };
+}
+
+pub fn fork_real<F: FnOnce() -> i32>(hold_at_unlink: bool, f: F) -> ForkChild {
+    let page = unsafe { raw6(libc::SYS_mmap, 0, 4096, (libc::PROT_READ | libc::PROT_WRITE) as i64, (libc::MAP_SHARED | libc::MAP_ANONYMOUS) as i64, -1, 0) };
+    if page < 0 && page > -4096 {
+        die("fork_real: mmap failed");
+    }
+    let page = page as *mut ForkPage;
+    let pid = unsafe { libc::fork() };
+    if pid == 0 {
+        ACTIVE.store(false, SeqCst);
+        if hold_at_unlink {
+            FORK_HOLD.store(page as usize, SeqCst);
+        }
+        unsafe { libc::alarm(30) };
+        let code = match std::panic::catch_unwind(std::panic::AssertUnwindSafe(f)) {
+            Ok(c) => c,
+            Err(e) => {
+                let m: String = if let Some(s) = e.downcast_ref::<&str>() { s.to_string() } else if let Some(s) = e.downcast_ref::<String>() { s.clone() } else { "panic".into() };
+                let b = m.as_bytes();
+                let n = b.len().min(400);
+                unsafe {
+                    (&mut (*page).msg)[..n].copy_from_slice(&b[..n]);
+                    (*page).msg_len.store(n as u32, SeqCst);
+                }
+                101
+            },
+        };
+        unsafe { raw6(libc::SYS_exit_group, code as i64, 0, 0, 0, 0, 0) };
+        unreachable!();
+    }
+    if pid < 0 {
+        die("fork_real: fork failed");
+    }
+    if active() {
+        g().stats.f_fork_real += 1;
+    }
+    ForkChild { pid, page, status: Cell::new(None), done: false }
+}
+impl ForkChild {
+    /// Real-time wait (the parent holds the baton, nothing else runs) until the child has parked at
+    /// its first shm_unlink; false if it exited (or 10 s passed) without parking.
+    pub fn wait_parked(&self) -> bool {
+        for _ in 0..200_000 {
+            if unsafe { (*self.page).parked.load(SeqCst) } == 1 {
+                return true;
+            }
+            let mut st = 0i32;
+            let r = unsafe { raw6(libc::SYS_wait4, self.pid as i64, &mut st as *mut i32 as i64, libc::WNOHANG as i64, 0, 0, 0) };
+            if r == self.pid as i64 {
+                self.status.set(Some(st));
+                return false;
+            }
+            real_sleep_us(50);
+        }
+        false
+    }
+    pub fn release(&self) {
+        unsafe { (*self.page).release.store(1, SeqCst) };
+    }
+    /// (exit code or 1000 + signal, panic message if any)
+    pub fn wait(mut self) -> (i32, String) {
+        self.done = true;
+        self.release();
+        let mut st = self.status.get().unwrap_or(0);
+        while self.status.get().is_none() {
+            let r = unsafe { raw6(libc::SYS_wait4, self.pid as i64, &mut st as *mut i32 as i64, 0, 0, 0, 0) };
+            if r == self.pid as i64 || (r < 0 && r != -(libc::EINTR as i64)) {
+                break;
+            }
+        }
+        let n = unsafe { (*self.page).msg_len.load(SeqCst) } as usize;
+        let msg = unsafe { String::from_utf8_lossy(&(&(*self.page).msg)[..n.min(400)]).to_string() };
+        unsafe { raw6(libc::SYS_munmap, self.page as i64, 4096, 0, 0, 0, 0) };
+        let code = if libc::WIFEXITED(st) { libc::WEXITSTATUS(st) } else { 1000 + libc::WTERMSIG(st) };
+        (code, msg)
+    }
+}
+#[no_mangle]
+pub unsafe extern "C" fn shm_unlink(name: *const libc::c_char) -> i32 {
+    let real: unsafe extern "C" fn(*const libc::c_char) -> i32 = std::mem::transmute(libc::dlsym(libc::RTLD_NEXT, b"shm_unlink\0".as_ptr() as *const _));
+    let page = FORK_HOLD.swap(0, SeqCst);
+    if page != 0 {
+        // forked child, first region creation: the named object exists; park until the parent lets go
+        let pg = page as *mut ForkPage;
+        (*pg).parked.store(1, SeqCst);
+        for _ in 0..200_000 {
+            if (*pg).release.load(SeqCst) == 1 {
+                break;
+            }
+            real_sleep_us(50);
+        }
+    }
+    real(name)
 }
